@@ -300,3 +300,20 @@ Definition finish_wait (w : wait_st) (st : status) : list wlabel :=
 Definition status_code (st : status) : N :=
   if N.eqb (N.modulo st 128) 0 then N.modulo (N.div st 256) 256 else 256.
 Definition status_signal (st : status) : N := N.modulo st 128.
+
+(* ====================================================================== *)
+(* (c) the request length of one sequential Read / Write                   *)
+
+(* compio-driver/src/sys/op/general/iour.rs: the SQE carries a u32 length,
+   `slice.len().try_into().unwrap_or(u32::MAX)`: a buffer of 2^32 bytes or more
+   (exactly 2^32, a multiple of it, 2^32 + k) is CLAMPED, never truncated modulo
+   2^32.  The polling driver hands the full usize to read(2) / write(2). *)
+Definition U32_MAX : N := 4294967295.
+Definition request_len (uring : bool) (n : N) : N :=
+  if uring then N.min n U32_MAX else n.
+
+(* what one write(2) / read(2) of a request of r bytes moves through a pipe
+   (the count side of PipeSpec.pipe_write / pipe_read, for payloads too large
+   to be written out as lists) *)
+Definition write_accepts (p : pipe) (r : N) : N := N.min r (N.of_nat (pipe_free p)).
+Definition read_returns (p : pipe) (r : N) : N := N.min r (N.of_nat (length (pq p))).
